@@ -163,6 +163,15 @@ pub fn clear_column(path: &Path, column: ColId) -> Result<()> {
 		return Err(Error::Migration("Invalid column index".into()))
 	}
 
+	// Replay and clean any pending write-ahead log first: a record left in a log would
+	// otherwise be replayed into the cleared column (or on top of its missing files) at the
+	// next open.
+	let mut options = Options::with_columns(path, meta.columns.len() as u8);
+	options.salt = Some(meta.salt);
+	options.columns = meta.columns;
+	options.stats = false;
+	drop(Db::open(&options)?);
+
 	crate::column::Column::drop_files(column, path.to_path_buf())?;
 
 	Ok(())
